@@ -20,7 +20,12 @@ func init() {
 		genC18(tier, out, sum)
 		extraTextCases("C18", tier, out, sum, true, true)
 	}
-	generators["C15"] = genC15
+	generators["C15"] = func(tier, out string, sum *Summary) {
+		for rep := 0; rep < 12; rep++ {
+			runPrecision(sum, "beyond-float-precision")
+		}
+		genC15(tier, out, sum)
+	}
 }
 
 // values with numerically equal spellings, reordered members, near misses
@@ -676,6 +681,13 @@ func genC18(tier, out string, sum *Summary) {
 			sum.direct("closure", e, doc, "serialising and decoding the result changes it: "+string(b))
 		}
 	}
+	// in-range numbers whose exact sum is beyond the range: an error, never an infinity that travels on
+	for _, e := range []string{"sum(a)", "avg(a)", "{total: sum(a), n: length(a)}", "[sum(a)]", "sum(a) | [@]", "a[0] + a[1]", "a[0] * a[1]", "sum([a[0], a[1], a[0]])", "- sum(a)", "map(&sum(@), [a])", "sum(b)", "avg(b)", "b[0] + b[1]", "b[0] - a[0]", "b[0] * `10`"} {
+		doc := map[string]any{"a": []any{json.Number("9e6144"), json.Number("9e6144")}, "b": []any{json.Number("-9e6144"), json.Number("-9.9e6144")}}
+		o := search(e, doc)
+		sum.count("overflowing-sum/" + o.Kind)
+		closed(e, doc, o)
+	}
 	// numbers no decimal holds (1e7000, 1e-7000 ...) under every numeric operator and built-in, as literals and as
 	// data: the outcome is an error or a result that is closed (never an infinity or a NaN that travels on)
 	for _, big := range []string{"1e7000", "-1e7000", "1e6145", "-9e6200", "1e999999999", "1e-7000", "123456789012345678901234567890e6130"} {
@@ -901,7 +913,7 @@ func genC15(tier, out string, sum *Summary) {
 	}
 	// the members of a multi-select hash are independent of each other: the order in which they are
 	// evaluated must not show (scopes, variables, errors)
-	hashExprs := []string{"let $outer = `0` in {p: let $a = name in $a, q: $a}", "let $o = `0` in {p: let $a = name in $a, q: not_null($a, 'none'), r: let $b = name in $b, s: $b}",
+	hashExprs := []string{"{a: `1`, \"a\": `2`}", "{\"\\u0061\": `1`, a: `2`, \"a\": `3`}", "{\"a\": name, a: items, \"\\u0061\": `3`}", "{a: `1`, a: `2`}", "{\"k\\u0031\": `1`, k1: `2`} | keys(@)", "let $outer = `0` in {p: let $a = name in $a, q: $a}", "let $o = `0` in {p: let $a = name in $a, q: not_null($a, 'none'), r: let $b = name in $b, s: $b}",
 		"{a: let $v = `1` in $v, b: let $v = `2` in $v, c: let $w = `3` in $w}", "let $v = `0` in {a: let $v = `1` in $v, b: $v, c: let $v = `2` in $v, d: $v}",
 		"items[*].{p: let $a = name in $a, q: $a}", "let $x = `1` in {a: $x, b: let $y = $x in {c: $y, d: let $z = $y in $z, e: $z}}", "{a: $undefined, b: name}", "let $n = name in {a: $n, b: let $n = `null` in $n, c: $n}"}
 	hdoc := map[string]any{"name": "x", "items": []any{map[string]any{"name": "one"}, map[string]any{"name": "two"}}}
